@@ -299,8 +299,13 @@ class Sub(object):
     parallel  : False to run in the parent process (e.g. for checks that manage threads)
     """
 
-    def __init__(self, name, gen, evalf, chunk=200, floor=1, parallel=True, doc='', timeout=0, guard=False, poison=True):
+    def __init__(self, name, gen, evalf, chunk=200, floor=1, parallel=True, doc='', timeout=0, guard=False, poison=True, envs=0):
         self.name = name
+        if envs:
+            # every envs-th case is evaluated a second time in an alternative process environment (gpmc.envs)
+            from gpmc import envs as _envs
+            gen = (lambda g: (lambda tier, seed: _envs.expand(g(tier, seed), envs)))(gen)
+        self.envs = envs
         self.gen = gen
         self.evalf = evalf
         self.chunk = chunk
@@ -367,7 +372,21 @@ def eval_one(sub, case, rec):
         old = signal.signal(signal.SIGALRM, on_alarm)
         signal.setitimer(signal.ITIMER_REAL, limit)
     try:
-        sub.evalf(case, rec)
+        if isinstance(case, dict) and case.get('_env'):
+            from gpmc import envs as _envs
+            with _envs.applied(case['_env']):
+                sub.evalf(case, rec)
+            rec.outcome('env:' + case['_env'])
+        else:
+            sub.evalf(case, rec)
+        from gpmc import cfg as _cfg
+        if _cfg.FORM_MISMATCH:
+            kind, want, got = _cfg.FORM_MISMATCH[0]
+            del _cfg.FORM_MISMATCH[:]
+            if isinstance(got, str):
+                raise HarnessError('cfg.denote failed for form %r: %s' % (kind, got))
+            rec.fail('an angle object of form %r built for %r degrees denotes %r degrees' % (kind, want, got),
+                     site='angles:construct:' + kind, observed=got, expected=want, coords={'kind': kind, 'dec': want})
     except HarnessError:
         raise
     except CaseTimeout as e:
